@@ -89,7 +89,11 @@ func (rs1 ResourceScope) Compare(rs2 ResourceScope) int {
 func (rs ResourceScope) isKnown() bool {
 	switch rs.ResourceType {
 	case TypeRepository:
-		return parseKnownAction(rs.Action) != unknownAction
+		// The empty repository name is reserved as the CatalogScope
+		// sentinel in Scope.repositories, so a repository scope with
+		// an empty name is stored in Scope.others like any other
+		// scope without a compact representation.
+		return rs.Resource != "" && parseKnownAction(rs.Action) != unknownAction
 	case TypeRegistry:
 		return rs == CatalogScope
 	}
@@ -358,9 +362,9 @@ func (s Scope) Holds(r ResourceScope) bool {
 		_, ok := slices.BinarySearch(s.repositories, "")
 		return ok
 	}
-	if r.ResourceType == TypeRepository {
+	if r.ResourceType == TypeRepository && r.Resource != "" {
 		if action := parseKnownAction(r.Action); action != unknownAction {
-			// It's a known action on a repository.
+			// It's a known action on a (named) repository.
 			i, ok := slices.BinarySearch(s.repositories, r.Resource)
 			if !ok {
 				return false
@@ -368,9 +372,9 @@ func (s Scope) Holds(r ResourceScope) bool {
 			return s.actions[i]&(1<<action) != 0
 		}
 	}
-	// We're either searching for an unknown resource type or
-	// an unknown action on a repository. In any case,
-	// we'll find the result in s.other.
+	// We're either searching for an unknown resource type,
+	// an unknown action on a repository or a repository with
+	// an empty name. In any case, we'll find the result in s.other.
 	_, ok := slices.BinarySearchFunc(s.others, r, ResourceScope.Compare)
 	return ok
 }
